@@ -124,6 +124,14 @@ IFEXP_FORMULAS = [      # a conditional expression as an operand (parentheses ma
     "(x if y else z) and True or v", "False or (x if y else z) if w else v", "(x if y else z) or (x if y else z)",
     "((x if y else z) and w) or ((x if y else z) and not w)", "True and (lambda: x)() or v",
 ]
+# round 5 (seed C17-d): chained comparisons as operands of and / or / not -- a chain is the conjunction of its links and
+# must be treated as ONE operand by every boolean rule
+CHAIN_ATOMS = ["0 < x < 2", "-1 <= x < 2", "0 < x <= y", "x < y < 2", "0 <= x <= y <= 2", "2 > x >= 0", "0 == x == y",
+               "-1 < x != 1 < 3", "-2 < x < 3 > y"]
+CHAIN_PARTNERS = ["y > 1", "x > 1", "x < 1", "1 == x", "z", "not z", "0 < y < 2", "y <= x < 2"]
+CHAIN_SHAPES = ["{C} or {P}", "{P} or {C}", "{C} and {P}", "{P} and {C}", "not ({C}) or {P}", "not ({C} or {P})",
+                "not ({C}) and not ({P})", "({C} or {P}) and z", "({C} and {P}) or z", "{C} or {P} or x > 0",
+                "{C} and {P} and x < 2", "{C} or ({P} or x >= 2)", "({C} or z) and ({C} or not z)", "{C} or not ({C})"]
 BOOL_EMBED = ["r = {F}\n", "if {F}:\n    r = 1\nelse:\n    r = 0\n", "r = 1 if {F} else 0\n", "r = not ({F})\n"]
 
 CONDS = ["b", "a > 1", "not a", "a and b", "b or not 2 <= a", "a >= b and 0", "a if b else c", "(y := a)", "0 < a < 3", "a or b",
@@ -172,6 +180,19 @@ def cases(tier, rnd):
         for emb in dict.fromkeys(embeds):
             for rule in ("simplify_boolean_expressions_symmath", "simplify_boolean_expressions"):
                 out.append(("bool", "symbolic_math", rule, emb.format(F=f), ("x", "y", "z")))
+    k = 0
+    for c in CHAIN_ATOMS:
+        for p_ in CHAIN_PARTNERS:
+            for sh in CHAIN_SHAPES:
+                k += 1
+                f = sh.format(C=c, P=p_)
+                embeds = BOOL_EMBED if tier != "quick" else [BOOL_EMBED[k % 4]]
+                for emb in embeds:
+                    for mod, rule in (("symbolic_math", "simplify_boolean_expressions"),
+                                      ("symbolic_math", "simplify_boolean_expressions_symmath"),
+                                      ("fixes", "remove_redundant_boolop_values")):
+                        if tier != "quick" or rule == "simplify_boolean_expressions" or k % 3 == 0:
+                            out.append(("chain", mod, rule, emb.format(F=f), ("x", "y", "z")))
     for f in IFEXP_FORMULAS:
         top_ifexp = isinstance(ast.parse(f, mode="eval").body, ast.IfExp)
         for emb in BOOL_EMBED[:3]:
